@@ -80,6 +80,120 @@ def _run_kernel(ci, fn, n_axes, dim, exponent, shift, basis_index):
     return res, tgt, buf, orig
 
 
+class _SymbolicPi:
+    """stands for sympy.pi and its multiples in membership tests against numeric angles: equal to no number"""
+    def __neg__(self):
+        return self
+
+    def __truediv__(self, other):
+        return self
+
+    def __mul__(self, other):
+        return self
+    __rmul__ = __mul__
+
+    def __eq__(self, other):
+        return other is self
+
+    def __hash__(self):
+        return 7
+
+
+def phased_fsim_kernel_rule(ctx, rid='C04.n'):
+    """PhasedFSimGate._apply_unitary_ on every basis input == the matrix documented for the gate, on a grid of the five angles."""
+    repo = ctx.repo
+    ctx.decided.append(f'{rid} the in-place kernel of PhasedFSimGate equals the documented five-angle matrix on a grid that includes theta = +-pi (where chi drops out but the block is -1)')
+    ctx.rule(rid, 'kernel == documented matrix for PhasedFSimGate: interpreting _apply_unitary_ on the four one-hot inputs gives the columns of '
+             '[[1,0,0,0],[0,e^{-i(g+z)}cos t,-i e^{-i(g-c)} sin t,0],[0,-i e^{-i(g+c)} sin t,e^{-i(g-z)} cos t,0],[0,0,0,e^{-i(2g+p)}]] for every (theta, zeta, chi, gamma, phi) of a grid '
+             'with zeros, +-pi, pi/2 and generic values (guards that skip work when angles vanish are exercised on both sides)', floor=1, style='FDX')
+    ci = repo.cls('cirq.ops.fsim_gate.PhasedFSimGate')
+    fn = ci.methods.get('_apply_unitary_')
+    if fn is None:
+        raise AnalysisError('PhasedFSimGate._apply_unitary_ not found')
+
+    def rx(a):
+        c, s_ = np.cos(a / 2), np.sin(a / 2)
+        return np.array([[c, -1j * s_], [-1j * s_, c]])
+
+    def rz(a):
+        return np.diag([np.exp(-0.5j * a), np.exp(0.5j * a)])
+    vals = [0.0, np.pi, -np.pi, np.pi / 2, 0.3, -1.1]
+    grid = [(t, z, c, g, p_) for t in vals for z in (0.0, 0.7) for c in (0.0, -0.4) for g in (0.0, 0.25) for p_ in (0.0, 1.3)]
+    bad = None
+    unsupported = None
+    runs = 0
+    for (t, z, c, g, p_) in grid:
+        want = np.array([[1, 0, 0, 0],
+                         [0, np.exp(-1j * (g + z)) * np.cos(t), -1j * np.exp(-1j * (g - c)) * np.sin(t), 0],
+                         [0, -1j * np.exp(-1j * (g + c)) * np.sin(t), np.exp(-1j * (g - z)) * np.cos(t), 0],
+                         [0, 0, 0, np.exp(-1j * (2 * g + p_))]])
+        for col, idx in enumerate(itertools.product(range(2), repeat=2)):
+            tgt = np.zeros((2, 2), dtype=complex)
+            tgt[idx] = 1
+            buf = np.full((2, 2), np.nan + 0j)
+
+            def subspace_index(little_endian_bits_int=0, *, big_endian_bits_int=0):
+                v = big_endian_bits_int or little_endian_bits_int
+                bits = (v & 1, (v >> 1) & 1)
+                return bits[::-1] if big_endian_bits_int else bits
+            args = {'target_tensor': tgt, 'available_buffer': buf, 'axes': (0, 1), 'subspace_index': subspace_index}
+            self_obj = {k_: v_ for k_, v_ in (('theta', t), ('zeta', z), ('chi', c), ('gamma', g), ('phi', p_), ('_theta', t), ('_zeta', z), ('_chi', c), ('_gamma', g), ('_phi', p_))}
+
+            def call_hook(call, it):
+                s_ = ast.unparse(call.func)
+                last = s_.split('.')[-1]
+                if last in ('is_parameterized', '_is_parameterized_'):
+                    return False
+                if last == 'rx' and len(call.args) == 1:
+                    return rx(it.ev(call.args[0]))
+                if last == 'rz' and len(call.args) == 1:
+                    return rz(it.ev(call.args[0]))
+                if last == 'unitary' and len(call.args) == 1:
+                    return it.ev(call.args[0])
+                if s_ in ('cmath.exp', 'np.exp', 'math.e'):
+                    return np.exp(it.ev(call.args[0]))
+                if last == 'apply_matrix_to_slices':
+                    kw = {k.arg: it.ev(k.value) for k in call.keywords}
+                    pos = [it.ev(a) for a in call.args]
+                    target = pos[0] if pos else kw['target']
+                    matrix = pos[1] if len(pos) > 1 else kw['matrix']
+                    slices = pos[2] if len(pos) > 2 else kw['slices']
+                    out = kw.get('out')
+                    if out is None:
+                        out = np.empty_like(target)
+                    if out is target:
+                        raise fdx.Unsupported('apply_matrix_to_slices with out=target')
+                    out[...] = target
+                    for i_, si in enumerate(slices):
+                        out[si] = sum(matrix[i_][j_] * target[sj] for j_, sj in enumerate(slices))
+                    return out
+                return NotImplemented
+            it = fdx.NumInterp({'self': self_obj, 'args': args}, call_hook=call_hook)
+            it.globals = {'sympy': {'pi': _SymbolicPi()}}
+            try:
+                fdx.follow(it, repo, ci, fn)
+                res = it.call(fn)
+            except (fdx.Unsupported, fdx.Raised) as ex:
+                unsupported = str(ex)
+                break
+            runs += 1
+            if res is None or res is NotImplemented:
+                bad = bad or f'declines numeric angles (theta={t:.3g})'
+                continue
+            got = np.array(res).reshape(-1)
+            if not np.allclose(got, want[:, col], atol=1e-9):
+                bad = bad or (f'at theta={t:.4g}, zeta={z}, chi={c}, gamma={g}, phi={p_}, basis state {idx}: kernel gives {np.round(got, 4).tolist()} but the documented matrix column is '
+                              f'{np.round(want[:, col], 4).tolist()}')
+        if unsupported:
+            break
+    key = f'{ci.qual}._apply_unitary_'
+    if unsupported:
+        ctx.unres(rid, key, f'kernel not interpretable: {unsupported}', ci.mod.rel, fn.lineno)
+        raise AnalysisError(f'{rid}: PhasedFSimGate kernel not interpretable: {unsupported}')
+    ctx.ob(rid, key, bad is None, bad or '', ci.mod.rel, fn.lineno)
+    ctx.notes.append(f'{rid} interpreted {runs} kernel runs')
+
+
 def run(ctx):
     repo = ctx.repo
     ctx.decided += [
@@ -414,6 +528,9 @@ def run(ctx):
     wrapper_shape_rule(ctx, 'C04.j')
     extract_phase_rule(ctx, 'C04.k')
     tensor_arguments_stay_arrays_rule(ctx, 'C04.l')
+    from . import simrules as _sim
+    _sim.term_starts_from_stash_rule(ctx, 'C04.m')
+    phased_fsim_kernel_rule(ctx, 'C04.n')
     ctx.decided.append('C04.l tensors handed to the Apply*Args objects are arrays also for zero-qubit states (no bare ufunc results)')
     ctx.decided.append('C04.k _extract_phase drops the global phase operation only when the phase is 1 (interpreted on a grid of shifts and exponents)')
     ctx.decided.append('C04.j gate wrappers that size themselves from the wrapped gate also take their qid shape from it')
